@@ -16,7 +16,13 @@ def contracts():
             out.append(solvers.step_contract(ivp.Cfg(layout, calib, "filter", "ts0", q=1, d=2)))
         out.append(solvers.step_contract(ivp.Cfg(layout, "dynamic", "filter", "ts0", q=1, d=2)))
         out.append(solvers.step_contract(ivp.Cfg(layout, "none", "filter", "ts1", q=1, d=2)))
-    from contracts import errors
+    from contracts import calibration, errors
 
+    # the quantities through which the factorisations must agree in adaptive / calibrated runs: local error estimates
+    # (shared value for the isotropic model, per dimension for the other two) and the final calibration
+    for layout in ("dense", "isotropic", "blockdiag"):
+        out.append(errors.estimator_contract(errors.ECfg(layout, "residual", relin=False, per_unit=False, lin="ts0", q=1, d=2)))
+        out.append(errors.estimator_contract(errors.ECfg(layout, "state", relin=False, per_unit=False, idx=0, lin="ts0", q=1, d=2)))
+        out.append(calibration.output_contract(ivp.Cfg(layout, "mle", "filter", "ts0", q=1, d=2), correct=True))
     out += [errors.norm_agreement_contract("error_norm_scale_then_rms"), errors.norm_agreement_contract("error_norm_rms_then_scale")]
     return out
